@@ -828,31 +828,40 @@ func (g *srvGen) opTear() error {
 		return g.s.restartAfterStop()
 	}
 	if r.Chance(8) {
-		// one of the record logs ends inside a record (not a state a process crash can leave behind, since
-		// every record is one write call; a power cut can): every loader has to refuse such a file
+		// one of the record logs ends inside a record: an append that a kill cut short (the kernel stops a buffered
+		// write at a page boundary when a fatal signal is pending). Every loader drops the partial record (F25)
 		files := []string{"equipment-authorizations.dat", "equipment-reports.dat", server.AllDeviceStatsHistoryFile}
-		rec := []int64{148, 80, 0}
 		k := r.Intn(3)
 		path := filepath.Join(dir, files[k])
-		n := fileLen(path)
-		if n > 0 {
-			if err := g.s.E.Stop(); err != nil {
-				return err
-			}
-			cut := int64(1 + r.Intn(60))
-			if rec[k] > 0 {
-				cut = int64(1 + r.Intn(int(rec[k])-1))
-			} else if r.Chance(50) {
-				cut = int64(1 + r.Intn(4)) // the last bytes of the signature
-			}
-			if cut >= n {
-				cut = 1
-			}
-			os.Truncate(path, n-cut)
-			g.s.T.Count("tear:bytes:" + files[k])
-			g.s.T.Line("srv.tear kind=bytes file=%s cut=%d", files[k], cut)
-			return g.s.restartAfterStop()
+		if err := g.s.E.Stop(); err != nil {
+			return err
 		}
+		// the beginning of a record that was being appended when the process was killed
+		var junk []byte
+		switch k {
+		case 0:
+			junk = r.Bytes(1 + r.Intn(147))
+		case 1:
+			junk = r.Bytes(1 + r.Intn(79))
+		default:
+			d := 1 + r.Intn(3) // "d devices follow": a whole record would have 72 + d*32288 bytes
+			n := []int{1, 3, 70, 4096, 20000, 32768, 40000}[r.Intn(7)]
+			if n >= 72+d*32288 {
+				n = 4096 * (1 + r.Intn(7))
+			}
+			junk = make([]byte, n)
+			junk[0] = byte(d)
+			for i := 4; i < n; i++ {
+				junk[i] = byte(r.Next())
+			}
+		}
+		if f, err := os.OpenFile(path, os.O_APPEND|os.O_WRONLY|os.O_CREATE, 0644); err == nil {
+			f.Write(junk)
+			f.Close()
+		}
+		g.s.T.Count("tear:bytes:" + files[k])
+		g.s.T.Line("srv.tear kind=bytes file=%s partial=%d", files[k], len(junk))
+		return g.s.restartAfterStop()
 	}
 	// crash in the middle of a start: first find out what a start appends
 	before := fileLen(filepath.Join(dir, "equipment-reports.dat"))
@@ -1115,6 +1124,10 @@ func init() {
 		glow.SetCurrentTimeslot(uint32(now))
 		defer os.RemoveAll(args[0])
 		if err := s.restartAfterStop(); err != nil {
+			// what the failed start found on disk (sizes only), for the replay file
+			for _, f := range []string{"equipment-authorizations.dat", "equipment-reports.dat", server.AllDeviceStatsHistoryFile, "gcaPubKey.dat", "server.keys"} {
+				t.Line("# failed-start file %s size=%d", f, fileLen(args[0]+"/"+f))
+			}
 			return 3
 		}
 		t.Count("crashpoint-recovered")
